@@ -9,7 +9,7 @@ def add(pid, technique, text, note, ref):
     CHECKS[pid] = (technique, text, note, ref)
 
 add("C03", "bounded-exhaustive token-sequence / edit / prefix / character-string exploration of the real parser against an Earley recogniser over the transcribed CFG",
-    "Every token sequence up to length 2 (3 in the three body frames; thorough 3 / 4) in 16 syntactic frames, every single insertion / deletion / replacement / adjacent swap (thorough: every pair of edits on the two small seeds) and every prefix+1 of six seed documents, every keyword, literal, reserved word and near-keyword in each of 12 identifier slots, 77 hand-listed lexeme variants (identifiers spelled like terminal names, brace-value separators, forty warnings followed by a syntax error, 120 members), every document of the C02 corpus (one layout) and every atom string up to length 3-4 (thorough 4-5) in three character frames is parsed by the real library; its verdict (tree / syntax diagnostics, before and after validation) is compared with a reference lexer + generic Earley recogniser. Exhaustive within those bounds; nothing sampled.",
+    "Every token sequence up to length 2 (3 in the three body frames; thorough 3 / 4) in 16 syntactic frames, every single insertion / deletion / replacement / adjacent swap (thorough: every pair of edits on the two small seeds) and every prefix+1 of six seed documents, every keyword, literal, reserved word and near-keyword in each of 12 identifier slots, 13 words with non-ASCII word characters (letters, marks, connector punctuation, join controls; first / middle / last position) in those slots and 2 annotation-name slots, 77 hand-listed lexeme variants (identifiers spelled like terminal names, brace-value separators, forty warnings followed by a syntax error, 120 members), every document of the C02 corpus (one layout) and every atom string up to length 3-4 (thorough 4-5) in three character frames is parsed by the real library; its verdict (tree / syntax diagnostics, before and after validation) is compared with a reference lexer + generic Earley recogniser. Exhaustive within those bounds; nothing sampled.",
     "trusted: reference lexer and CFG transcription (DESIGN.md appendices A/B), hook H1 read accessor; bounds: sequence length, edit distance, atom alphabets",
     "DESIGN.md section 4, C03")
 add("C20", "exhaustive enumeration of error points (C03 spaces) with the parser's own expectation vector recorded by a hook as oracle",
